@@ -628,6 +628,37 @@ def explicit_nonce_from_record(chk):
     chk.floor('AEAD record decrypt functions', n, 2)
 
 
+def ec_work_buffers(chk):
+    """Every supported curve must be usable in the key exchange (P-521: 66-byte coordinates and scalars, 133-byte points).  The handshake
+    code copies the shared X coordinate, the ephemeral scalar and the peer's point through fixed local arrays; an array smaller than
+    the largest curve either truncates the secret (the two ends then derive different keys and the Finished check fails) or is
+    clamped away.  Rule: the local arrays of the ECDH routines are at least (BR_MAX_EC_SIZE + 7) / 8 bytes, resp. twice that plus
+    one for points; sizes from the debug-info declarations of the current tree."""
+    R = 'ecdh-buffers-hold-largest-curve'
+    cv = build.const_values(['(BR_MAX_EC_SIZE + 7) >> 3'])
+    xl = cv['(BR_MAX_EC_SIZE + 7) >> 3']
+    WANT = [('src/ssl/ssl_hs_server.c', 'ecdh_common', 'rpms', xl, 'random replacement of the shared X coordinate'),
+            ('src/ssl/ssl_hs_client.c', 'make_pms_ecdh', 'key', xl, 'ephemeral scalar'),
+            ('src/ssl/ssl_hs_client.c', 'make_pms_ecdh', 'point', 2 * xl + 1, 'peer / own public point')]
+    n = 0
+    for src, fn, var, need, what in WANT:
+        u = build.load_unit(src)
+        F = next((irf.Func(u, f) for f in u['functions'] if f['name'] == fn and f.get('blocks')), None)
+        if F is None:
+            raise AnalysisBroken('%s vanished from %s' % (fn, src))
+        al = [F.insts[d['v']] for d in F.f.get('declares', []) if d['var'] == var and d['v'] in F.insts]
+        n += 1
+        inst = '%s: local %s[] (%s) holds at least %d bytes' % (fn, var, what, need)
+        if not al:
+            chk.violation(R, inst, F.where(), 'no local array named %s' % var, key='%s %s %s' % (R, fn, var))
+        elif al[0].get('size', 0) >= need:
+            chk.ok(R, inst, F.where(al[0]), '%d bytes' % al[0]['size'])
+        else:
+            chk.violation(R, inst, F.where(al[0]), 'it has %d bytes: with secp521r1 the value does not fit and the handshake cannot complete (or the secret is truncated)'
+                          % al[0].get('size', 0), key='%s %s %s' % (R, fn, var))
+    chk.floor('ECDH work buffers', n, 3)
+
+
 def run(tier):
     chk = report.Check('C01', tier,
                        'Static clauses of "both sides agree": the cipher-suite table of both handshake interpreters equals the IANA registry '
@@ -649,6 +680,7 @@ def run(tier):
     ske_hash_by_version(chk)
     key_export_seed(chk)
     explicit_nonce_from_record(chk)
+    ec_work_buffers(chk)
     from .c02 import cbc_padding_length_range
     cbc_padding_length_range(chk)
     from .. import engio, oblig as _ob
